@@ -17,7 +17,9 @@ A sheet is the list of its rules.  A rule carries what the code reads:
 The log raises (css_parser.log.raiseExceptions is True outside a parse), so
 `CSSMediaRule.insertRule` of a rule that may not live in @media raises HierarchyRequestErr and
 `deleteRule` of a namespace in use raises NoModificationAllowedErr.  resolveImports catches
-HierarchyRequestErr of the nested call only.
+HierarchyRequestErr of the nested call only.  (With the check of the rule kinds before wrapping —
+comments and style rules only — neither the `except` branch nor the raising `CSSMediaRule.add` can be
+reached any more: `Proofs/Resolve.lean`, `resolve_never_hierarchy`.  They are transcribed all the same.)
 -/
 namespace CssVerif.Resolve
 
@@ -58,9 +60,10 @@ def Rule.isCand : Rule → Bool
   | _ => false
 /-- everything that `add` appends at the end -/
 def Rule.isBody (r : Rule) : Bool := !(r.isCharset || r.isImport || r.isNs)
-/-- `r.type in (r.COMMENT, r.STYLE_RULE, r.IMPORT_RULE)`: what resolveImports is willing to put into @media -/
+/-- `r.type in (r.COMMENT, r.STYLE_RULE)`: what resolveImports is willing to put into @media (an @import
+left in the flattened imported sheet — a kept one, e.g. not loadable — is not: @media refuses it) -/
 def Rule.canWrap : Rule → Bool
-  | .comment _ => true | .start _ => true | .style _ _ => true | .imp _ _ _ => true | _ => false
+  | .comment _ => true | .start _ => true | .style _ _ => true | _ => false
 /-- what `CSSMediaRule.insertRule` refuses (there is no margin rule at sheet level) -/
 def Rule.mediaForbids : Rule → Bool
   | .charset _ => true | .ns _ _ => true | .imp _ _ _ => true | .block .fontface _ => true | _ => false
